@@ -122,6 +122,10 @@ const (
 )
 
 func c14mutants() []mutant {
+	return append(c14mutants1(), c14mutants2()...)
+}
+
+func c14mutants1() []mutant {
 	return []mutant{
 		// ---- breaking changes ------------------------------------------------------------------------------
 		{Name: "options expanded with the environment", File: c14fRoutecmd, Old: "\ts = strings.TrimSpace(s[len(prefix):])\n", New: "\ts = strings.TrimSpace(expand(s[len(prefix):]))\n", Expect: "C14.E1"},
